@@ -4,7 +4,8 @@ THEOREMS = {
     'C01': ['C01.C01_coherent', 'C01.C01_fork_sync', 'C01.C01_hide_no_expunge', 'C01.C01_fetch_labels', 'C01.C01_system',
             'Sync.merge_same_message', 'Sync.seq_stable_without_expunge'],
     'C02': ['C02.C02_log_inv', 'C02.C02_log_complete', 'C02.C02_noop_converges'],
-    'C03': ['C03.C03_raw', 'C03.C03_size', 'C03.C03_header_text', 'C03.C03_partial'],
+    'C03': ['C03.C03_raw', 'C03.C03_size', 'C03.C03_header_text', 'C03.C03_partial', 'C03.C03_copyuid_pairs', 'C03.C03_copyuid_mem', 'C03.C03_sortNat_sorted',
+            'C03.sortNat_perm', 'C03.copyuid_set_order_as_seeded'],
     'C04': ['C04.C04_uid_monotone', 'C04.C04_uidnext', 'C04.C04_appenduid', 'C04.C04_copyuid_pairing', 'C15.C15_recover',
             'C15.C15_next_monotone', 'C15.C15_next_monotone_recover', 'C15.C15_append_uid_fresh'],
     'C05': ['C05.C05_state_only', 'C05.C05_gate', 'C05.C05_refused_noop', 'C05.C05_select', 'C05.C05_close', 'C05.C05_logout'],
